@@ -37,6 +37,13 @@ def fname(i):
 def render(flows):
     src = "flow main\n" + "".join("  start %s\n" % fname(f["i"]) for f in flows) + "  match Never()\n\n"
     for f in flows:
+        ov = f.get("override")
+        if ov:
+            # the flow is defined twice: a first definition that an @override one replaces. Only the decorators the
+            # overriding definition spells itself count (it is the flow the oracle reasons about)
+            if ov == "base-has-loop":
+                src += '@loop("basel")\n'
+            src += "flow %s\n  match NeverBase()\n\n@override\n" % fname(f["i"])
         if f["loop"]:
             src += '@loop("%s")\n' % f["loop"]
         src += "flow %s\n" % fname(f["i"])
@@ -65,7 +72,8 @@ def gen_program(rng, flows=None):
                 # legal action type names that merely CONTAIN the words the event names are built from
                 act = alias[act]
             aarg = rng.choice([None, None, 1, 2])
-            flows.append(dict(i=i, S=S, mismatch=mismatch, prio=prio, loop=loop, act=act, aarg=aarg))
+            override = rng.choice([None, None, None, None, "base-has-loop", "plain"])
+            flows.append(dict(i=i, S=S, mismatch=mismatch, prio=prio, loop=loop, act=act, aarg=aarg, override=override))
     ev = {"type": "Ev", "a": 1, "b": 2, "c": 3}
     return {"flows": flows, "src": render(flows), "event": ev}
 
